@@ -6,6 +6,8 @@ BufferedIOBase contract: a short write of a raw unbuffered file is outside the m
 only at end of file.  Reads are decided by integer arithmetic over the segment lengths; a read that would cut an abstract segment other
 than a packed blob is outside the model (Unsupported -> the obligation is undecided, never a violation).
 """
+import io
+
 import z3
 
 from ..errors import PyRaise, Unsupported
@@ -15,8 +17,10 @@ from .mp import MPBytes, MPTrunc
 
 
 def length_of(v):
-    if isinstance(v, (bytes, bytearray)):
+    if isinstance(v, (bytes, bytearray, str)):
         return len(v)
+    if type(v).__name__ == "JSText":
+        return v.length
     if isinstance(v, (SBytes, MPBytes, MPTrunc)):
         if v.length is None:
             raise Unsupported("file segment without a length")
@@ -31,14 +35,16 @@ class Rest:
         self.blob, self.length = blob, length
 
 
-class AbsFile:
+class AbsFile(io.IOBase):
+    """(an io.IOBase so that code dispatching on isinstance(fp, io.IOBase) sees a stream; every IOBase method is overridden or refused)"""
+
     def __init__(self, it, segments=(), name="fp", fail_at=None, mode="rb"):
         note("file objects", "write(b) appends all of b or raises (BufferedIOBase contract; short writes of raw files are outside the model); read(n) returns the next n bytes, "
              "fewer only at end of file; flush/close do not change the content; content already written survives a later failing write")
         self.it, self.name, self.mode = it, name, mode
         self.segs = [(v, length_of(v)) for v in segments]
         self.i = 0
-        self.closed = False
+        self._closed = False
         self.nwrites = 0
         self.nflush = 0
         self.fail_at = fail_at
@@ -61,8 +67,15 @@ class AbsFile:
             return a - b
         return z3.simplify((a if not isinstance(a, int) else z3.IntVal(a)) - (b if not isinstance(b, int) else z3.IntVal(b)))
 
+    @property
+    def closed(self):
+        return self._closed
+
+    def __del__(self):
+        pass
+
     def _check_open(self):
-        if self.closed:
+        if self._closed:
             raise PyRaise(ValueError("I/O operation on closed file."))
 
     # ---- file protocol
@@ -75,8 +88,10 @@ class AbsFile:
         self.log.append(("write", b))
         if self.fail_at is not None and k == self.fail_at:
             raise PyRaise(OSError(28, "No space left on device (injected)"))
-        if isinstance(b, str):
+        if isinstance(b, str) and "b" in self.mode:
             raise PyRaise(TypeError("a bytes-like object is required, not 'str'"))
+        if isinstance(b, (bytes, bytearray)) and "b" not in self.mode:
+            raise PyRaise(TypeError("write() argument must be str, not bytes"))
         n = length_of(b)
         self.segs.append((b, n))
         return SInt(n) if not isinstance(n, int) else n
@@ -146,6 +161,8 @@ class AbsFile:
         raise Unsupported("read spanning several abstract segments")
 
     def peek(self, n=0):
+        if "b" not in self.mode:
+            return ""
         save_i, save_segs = self.i, list(self.segs)
         try:
             return self.read(n)
@@ -158,9 +175,21 @@ class AbsFile:
         self.log.append(("flush",))
 
     def close(self):
-        if not self.closed:
+        if not self._closed:
             self.log.append(("close",))
-        self.closed = True
+        self._closed = True
+
+    def __iter__(self):
+        """Text mode: the lines (one written segment per line, as the JSON writer produces them)."""
+        self._check_open()
+        if "b" in self.mode:
+            raise Unsupported("line iteration over a binary abstract file")
+        out = [v for v, _ in self.segs[self.i:]]
+        self.i = len(self.segs)
+        return iter(out)
+
+    def __next__(self):
+        raise Unsupported("next() on an abstract file")
 
     def readable(self):
         return "r" in self.mode
@@ -185,6 +214,11 @@ class AbsFile:
         if name.startswith("_") or name in ("name",):
             raise AttributeError(name)
         raise Unsupported(f"file method {name!r} is outside the file model")
+
+    def _refuse(self, *a, **k):
+        raise Unsupported("file method outside the file model (readline/readlines/readinto/seek/tell/truncate/fileno/writelines)")
+
+    readline = readlines = readinto = seek = tell = truncate = fileno = writelines = _refuse
 
     # ---- ghost view
     def content(self):
